@@ -121,6 +121,16 @@ def _mutate(kind, obj, op):
         return update_initial_state(obj, op)
     elif name == "conv2d":
         obj.convert_to_2d()
+    elif name == "set_verts":
+        # the three public vertex setters, with the polylines of a freshly generated lanelet of the same dimension
+        rng = random.Random(op[1])
+        src = O.gen_lanelet(rng, obj.lanelet_id, dim3=obj.center_vertices.shape[1] == 3)
+        src.translate_rotate(np.array([scen.rnd(rng, -30, 30), scen.rnd(rng, -30, 30)]), 0.0) \
+            if src.center_vertices.shape[1] == 2 else None
+        order = ["left_vertices", "right_vertices", "center_vertices"]
+        rng.shuffle(order)
+        for a in order:
+            setattr(obj, a, np.array(getattr(src, a)))
     elif name == "add_lanelet":
         net = obj.lanelet_network if kind == "scenario" else obj
         la = new_lanelet(net, op[1])
@@ -292,7 +302,7 @@ FAMILY = {
     "occ": ({"q_occ", "q_occset", "q_occs", "q_state", "q_states"},
             {"tr", "obst_tr", "set_shape", "set_traj", "set_init", "set_pred", "update_pred", "update_init"}),
     "lanelet": ({"q_pos", "q_shape", "q_polys", "q_ldist", "q_poly", "q_dist", "q_inner", "q_interp", "q_contains"},
-                {"tr", "add_lanelet", "remove_lanelet", "add_from_net", "conv2d"}),
+                {"tr", "add_lanelet", "remove_lanelet", "add_from_net", "conv2d", "set_verts"}),
     "light": ({"q_light", "q_init"}, {"set_elems", "set_offset", "set_active", "set_cycle"}),
 }
 
@@ -426,7 +436,7 @@ def g_mutator(rng, kind, obj):
     if kind == "lanelet":
         if obj.center_vertices.shape[1] == 3:
             return ["conv2d"]
-        return rng.choice([g_tr(rng), g_tr(rng), g_tr(rng), ["conv2d"]])
+        return rng.choice([g_tr(rng), g_tr(rng), g_tr(rng), ["conv2d"], ["set_verts", s], ["set_verts", s]])
     if kind == "cycle":
         return rng.choice([["set_elems", s], ["set_offset", rng.randint(0, 9)], ["set_offset", rng.randint(0, 9)],
                            ["set_active", rng.random() < 0.5]])
@@ -756,6 +766,7 @@ def encode_case(case):
                 term = _obst_op(obj, op, tk)
         elif kind == "lanelet":
             term = {"tr": lambda: f"(LMove TokW {tk.z()})", "conv2d": lambda: "(LConv2d TokW)",
+                    "set_verts": lambda: f"(LSetVerts TokW {tk.new()})",
                     "q_poly": lambda: "(LQPoly TokW)", "q_dist": lambda: "(LQDist TokW)",
                     "q_inner": lambda: "(LQInner TokW)", "q_interp": lambda: "(LQInterp TokW tt)",
                     "q_contains": lambda: "(LQContains TokW tt)"}[name]()
